@@ -24,4 +24,9 @@ CHECKS = {
   "text": "Proof (all logs, workers, batch splits, sync points, snapshot positions): applyAll_pub / issuer_independent (public state is a fold of a transformer that does not depend on the replaying worker), replay_is_fold (batch splits), applyLogs_prefix + sync_keeps_synced (a sync aborted by the issuer's own error leaves the cursor just past the record and the invariant 'state = replay of the prefix read'), workers_converge, rejected_changes_nothing (raised only at the issuer, no worker's state changes), snapshot_plus_tail. Tie: 2-4 real JournalStorage workers on one file/fakeredis log; after every call the Lean replicas are fed the records read back from the log and must agree on error class at the issuer, returned ids, claim answers and the whole readable state; plus fresh replay, batch replay under an existing worker identity, snapshot restore. The property itself is also checked directly on the implementation (all views equal; a rejected call changes no worker's view).",
   "note": TB + "pickle fidelity of snapshots is trusted (exercised); records are re-encoded (floats -> exact rationals) by the harness before the model reads them; JournalOperation codes are compared with the table the model assumes on every run.",
  },
+ "C03": {
+  "technique": "Lean 4 proof of lock atomicity for every schedule (invariant by induction over the schedule) with the code-shape hypothesis regenerated from source by a translator and discharged by decide; deterministic line-level thread scheduler + Wing-Gong linearizability search against the Lean contract model as the tie",
+  "text": "Proof (partial by nature): lock_atomicity - for any number of threads, calls, micro-step decompositions and any schedule, code that touches shared state only inside one critical section of one lock behaves as the sequential execution in completion order (mutual_exclusion, completed_run_is_sequential, concurrent_numbers_dense via C01). The hypothesis is the table Generated/LockTable.lean regenerated from /repo by T-lock on every run (InMemoryStorage, JournalStorage, GrpcClientCache: every public method wholly under its lock; _CachedStorage: writes pass through) and decided in Lean; a narrowed or removed `with self._lock` breaks that obligation. Tie: real threads on InMemoryStorage / JournalStorage (two objects on one file) preempted at every source line of optuna/storages by a seeded scheduler (uniform + PCT), every history checked for linearizability against the contract model by the Lean `lin` driver; free-running threads on SQLite, cached SQLite and gRPC proxies are checked the same way (sampled).",
+  "note": TB + "Cannot exhibit: switch points inside C extensions, SQLite's own locking, gRPC server threads (sampled only). Known finding F16 (torn reads of RDBStorage getters). U7: a finisher losing a race may answer False instead of UpdateFinishedTrialError.",
+ },
 }
